@@ -7,7 +7,7 @@ OptsOne  == {[hf |-> 1, df |-> Big, skip |-> {}]}
 OptsQuick == {[hf |-> h, df |-> d, skip |-> s] : h \in {1, 2}, d \in {1, Big}, s \in {{}, {"a"}}}
 OptsFull == {[hf |-> h, df |-> d, skip |-> s] : h \in {1, 2, Big}, d \in {1, 2, Big}, s \in {{}, {"a"}}}
 OptsTeeth == {[hf |-> h, df |-> Big, skip |-> {}] : h \in {1, 2}}
-OptsAS   == {[hf |-> h, df |-> d, skip |-> {}] : h \in {1, 2}, d \in {1, Big}}
+OptsAS   == {[hf |-> 1, df |-> d, skip |-> {}] : d \in {1, Big}}
 
 K(a, b) == <<a, b>>
 C(S) == [k \in Keys |-> IF k \in S THEN 1 ELSE 0]
@@ -21,5 +21,6 @@ InitAS == {[n \in Names |-> IF n = "a" THEN C({K(0,0), K(1,0)}) ELSE C(S)] : S \
 MutRootFromDedup(n) == TRUE                       \* root of a main trie may be served from the deduped space
 MutCkptSkips(v, bmaj) == v.maj <= bmaj            \* checkpoint version filter >= turned into >
 MutNoDeepFork(t, target) == TRUE                  \* a fork branching below the target survives above it
+MutStorageUnchanged(rv, bmaj) == rv.maj <= bmaj    \* storage trie written exactly at the base is not checkpointed
 MutRootCacheRecent(target) == TRUE                \* a root that is being pruned is still in the root cache
 ====
